@@ -1,20 +1,2031 @@
+// effscan: translate the SSA of the utreexo package into a tiny flow-insensitive
+// slice-effect IR, compute owner sets / summaries by fixpoint, and emit them as a
+// Coq file whose claims are re-validated by the verified checker `check_program`
+// (Spec/SliceHeap.v, Proofs/EffectSound.v).
+//
+// The analyser is UNTRUSTED for the abstract values and summaries (the Coq checker
+// re-validates closure); it is TRUSTED for the SSA -> IR translation documented in
+// README.md.
 package main
 
 import (
+	"bufio"
+	"flag"
 	"fmt"
+	"go/token"
+	"go/types"
+	"os"
+	"sort"
+	"strings"
 
 	"golang.org/x/tools/go/packages"
 	"golang.org/x/tools/go/ssa"
 	"golang.org/x/tools/go/ssa/ssautil"
 )
 
+// ---------------------------------------------------------------------------
+// IR
+
+type kind int
+
+const (
+	KMake kind = iota
+	KAlias
+	KWrite
+	KAppend
+	KCopy
+	KSort
+	KCall
+	KRet
+	KExempt
+	KGlobal
+)
+
+type stmt struct {
+	k      kind
+	x, y   int
+	ys     []int // alias sources, call args, ret vars
+	rets   []int
+	callee *fn
+	tag    string
+	pos    token.Pos
+	why    string
+}
+
+// owner bitset: bit 0 = fresh, bit 1 = global, bit 2+i = parameter i
+type oset uint64
+
+const (
+	oFresh  oset = 1
+	oGlobal oset = 2
+)
+
+func oParam(i int) oset { return oset(1) << uint(2+i) }
+
+func (o oset) nonFresh() oset { return o &^ oFresh }
+
+func (o oset) list() []string {
+	var r []string
+	for i := 0; i < 62; i++ {
+		if o&oParam(i) != 0 {
+			r = append(r, fmt.Sprintf("OParam %d", i))
+		}
+	}
+	if o&oFresh != 0 {
+		r = append(r, "OFresh")
+	}
+	if o&oGlobal != 0 {
+		r = append(r, "OGlobal")
+	}
+	return r
+}
+func (o oset) coq() string { return "[" + strings.Join(o.list(), "; ") + "]" }
+func (o oset) short() string {
+	s := o.coq()
+	s = strings.ReplaceAll(s, "OParam ", "P")
+	s = strings.ReplaceAll(s, "OFresh", "F")
+	s = strings.ReplaceAll(s, "OGlobal", "G")
+	return s
+}
+
+type vkey struct {
+	v ssa.Value
+	k int // 0 = reach, 1 = direct, 2+i = call result component i
+}
+
+type reason struct {
+	si      int // statement index, -1 = parameter
+	fromVar int // variable in the same function the bit was copied from (-1 none)
+	fromBit int // owner bit (index) in the callee for call-derived facts (-1 none)
+}
+
+type fn struct {
+	id      int
+	f       *ssa.Function
+	name    string
+	nfree   int
+	nparams int
+	vars    map[vkey]int
+	vnames  []string
+	body    []stmt
+	dummy   int
+
+	val    []oset
+	writes oset
+	rets   []oset
+
+	valWhy   []map[int]reason // per var: bit index -> reason
+	writeWhy map[int]reason   // bit index -> (stmt, var)
+}
+
+func (g *fn) newVar(name string) int {
+	g.vnames = append(g.vnames, name)
+	return len(g.vnames) - 1
+}
+
+func (g *fn) emit(s stmt) { g.body = append(g.body, s) }
+
+// ---------------------------------------------------------------------------
+// type predicates
+
+func isErrorType(t types.Type) bool {
+	if n, ok := t.(*types.Named); ok {
+		return n.Obj().Pkg() == nil && n.Obj().Name() == "error"
+	}
+	return false
+}
+
+// carrier: may a value of this type hold a reference to a memory object?
+func carrier(t types.Type) bool {
+	if isErrorType(t) {
+		return false
+	}
+	switch u := t.Underlying().(type) {
+	case *types.Slice, *types.Pointer, *types.Map, *types.Chan, *types.Signature, *types.Interface:
+		return true
+	case *types.Struct:
+		for i := 0; i < u.NumFields(); i++ {
+			if carrier(u.Field(i).Type()) {
+				return true
+			}
+		}
+		return false
+	case *types.Tuple:
+		for i := 0; i < u.Len(); i++ {
+			if carrier(u.At(i).Type()) {
+				return true
+			}
+		}
+		return false
+	case *types.Array:
+		return carrier(u.Elem())
+	case *types.Basic:
+		if u.Kind() == types.UnsafePointer {
+			fatal("unsafe.Pointer is not supported")
+		}
+		return false
+	}
+	if _, ok := t.(*types.TypeParam); ok {
+		return true
+	}
+	// opaque SSA types (range iterator) and anything unknown: conservative
+	return true
+}
+
+// container: may a value of this type reference a mutable cell that itself holds
+// carriers (so that a store through one alias is visible through another)?
+func container(t types.Type) bool {
+	if isErrorType(t) {
+		return false
+	}
+	switch u := t.Underlying().(type) {
+	case *types.Pointer:
+		return carrier(u.Elem())
+	case *types.Slice:
+		return carrier(u.Elem())
+	case *types.Map:
+		return carrier(u.Key()) || carrier(u.Elem())
+	case *types.Chan:
+		return carrier(u.Elem())
+	case *types.Signature, *types.Interface:
+		return true
+	case *types.Struct:
+		for i := 0; i < u.NumFields(); i++ {
+			if container(u.Field(i).Type()) {
+				return true
+			}
+		}
+		return false
+	case *types.Tuple:
+		for i := 0; i < u.Len(); i++ {
+			if container(u.At(i).Type()) {
+				return true
+			}
+		}
+		return false
+	case *types.Array:
+		return container(u.Elem())
+	case *types.Basic:
+		return false
+	}
+	if _, ok := t.(*types.TypeParam); ok {
+		return true
+	}
+	return true
+}
+
+// ---------------------------------------------------------------------------
+// globals of the tool
+
+var (
+	prog      *ssa.Program
+	pkg       *ssa.Package
+	pkgPath   string
+	fns       = map[*ssa.Function]*fn{}
+	fnList    []*fn
+	addrTaken []*ssa.Function
+	notes     = map[string]bool{}
+	srcLines  = map[string][]string{}
+)
+
+const exemptTag = "MapPollard.Undo: proof.Proof[i] = leaf.Hash in undoDeletion (value-preserving write, decided dynamically)"
+const exemptFunc = "(*MapPollard).undoDeletion"
+const exemptLine = "proof.Proof[i] = leaf.Hash"
+
+var entryNames = []string{
+	"Verify", "(*Stump).Update",
+	"(*Pollard).Verify", "(*Pollard).Prove", "(*Pollard).Modify", "(*Pollard).Undo",
+	"(*MapPollard).Verify", "(*MapPollard).Prove", "(*MapPollard).Modify", "(*MapPollard).Undo",
+	"(*MapPollard).VerifyPartialProof", "(*MapPollard).GetMissingPositions",
+	"(*MapPollard).Ingest", "(*MapPollard).Prune",
+	"(*Proof).Update", "(*Proof).Undo", "AddProof", "GetProofSubset",
+}
+
+func fatal(f string, a ...interface{}) {
+	fmt.Fprintf(os.Stderr, "effscan: "+f+"\n", a...)
+	os.Exit(2)
+}
+
+func note(f string, a ...interface{}) { notes[fmt.Sprintf(f, a...)] = true }
+
+func shortName(f *ssa.Function) string {
+	n := f.String()
+	n = strings.ReplaceAll(n, pkgPath+".", "")
+	return n
+}
+
+func extName(f *ssa.Function) string {
+	n := f.String()
+	if i := strings.Index(n, "["); i >= 0 {
+		n = n[:i]
+	}
+	return n
+}
+
+func srcLine(p token.Pos) string {
+	if !p.IsValid() {
+		return ""
+	}
+	pos := prog.Fset.Position(p)
+	ls, ok := srcLines[pos.Filename]
+	if !ok {
+		fh, err := os.Open(pos.Filename)
+		if err == nil {
+			sc := bufio.NewScanner(fh)
+			sc.Buffer(make([]byte, 1<<20), 1<<20)
+			for sc.Scan() {
+				ls = append(ls, sc.Text())
+			}
+			fh.Close()
+		}
+		srcLines[pos.Filename] = ls
+	}
+	if pos.Line-1 < len(ls) && pos.Line >= 1 {
+		return strings.TrimSpace(ls[pos.Line-1])
+	}
+	return ""
+}
+
+func posStr(p token.Pos) string {
+	if !p.IsValid() {
+		return "-"
+	}
+	pos := prog.Fset.Position(p)
+	fnm := pos.Filename
+	if i := strings.LastIndex(fnm, "/"); i >= 0 {
+		fnm = fnm[i+1:]
+	}
+	return fmt.Sprintf("%s:%d", fnm, pos.Line)
+}
+
+// ---------------------------------------------------------------------------
+// variables
+
+func (g *fn) shared() int {
+	if g.dummy < 0 {
+		g.dummy = g.newVar("_")
+	}
+	return g.dummy
+}
+
+// split: does the SSA value get separate direct/reach variables?
+func split(v ssa.Value) bool {
+	switch x := v.(type) {
+	case *ssa.Parameter, *ssa.FreeVar, *ssa.Const, *ssa.Function, *ssa.Builtin, *ssa.Global:
+		return false
+	case *ssa.Call:
+		return false
+	case *ssa.Range:
+		return false
+	case *ssa.Extract:
+		if _, ok := x.Tuple.(*ssa.Call); ok {
+			return container(v.Type())
+		}
+	}
+	return container(v.Type())
+}
+
+// R: the variable holding everything the SSA value may (transitively) reach.
+func (g *fn) R(v ssa.Value) int {
+	switch x := v.(type) {
+	case *ssa.Parameter:
+		for i, p := range g.f.Params {
+			if p == x {
+				return g.nfree + i
+			}
+		}
+		fatal("parameter not found")
+	case *ssa.FreeVar:
+		for i, p := range g.f.FreeVars {
+			if p == x {
+				return i
+			}
+		}
+		fatal("free variable not found")
+	case *ssa.Const:
+		if carrier(x.Type()) {
+			return g.newVar("nil")
+		}
+		return g.shared()
+	case *ssa.Function, *ssa.Builtin:
+		return g.newVar("fn:" + v.Name())
+	case *ssa.Range:
+		return g.R(x.X)
+	case *ssa.Call:
+		return g.comp(x, 0)
+	}
+	if !carrier(v.Type()) {
+		return g.shared()
+	}
+	k := vkey{v, 0}
+	if id, ok := g.vars[k]; ok {
+		return id
+	}
+	id := g.newVar(v.Name())
+	g.vars[k] = id
+	if gl, ok := v.(*ssa.Global); ok {
+		g.vnames[id] = "global:" + gl.Name()
+		g.emit(stmt{k: KGlobal, x: id, pos: token.NoPos, why: "global " + gl.String()})
+	}
+	return id
+}
+
+// D: the variable holding the objects the SSA value references directly.
+func (g *fn) D(v ssa.Value) int {
+	if r, ok := v.(*ssa.Range); ok {
+		return g.R(r.X)
+	}
+	if !split(v) || !carrier(v.Type()) {
+		return g.R(v)
+	}
+	k := vkey{v, 1}
+	if id, ok := g.vars[k]; ok {
+		return id
+	}
+	id := g.newVar(v.Name() + ".d")
+	g.vars[k] = id
+	g.emit(stmt{k: KAlias, x: g.R(v), ys: []int{id}, why: "reach includes direct referents of " + v.Name()})
+	return id
+}
+
+// comp: result component k of a call
+func (g *fn) comp(c ssa.Value, k int) int {
+	key := vkey{c, 2 + k}
+	if id, ok := g.vars[key]; ok {
+		return id
+	}
+	id := g.newVar(fmt.Sprintf("%s#%d", c.Name(), k))
+	g.vars[key] = id
+	return id
+}
+
+func (g *fn) alias(x int, ys []int, pos token.Pos, why string) {
+	var zs []int
+	for _, y := range ys {
+		if y != x && (g.dummy < 0 || y != g.dummy) {
+			zs = append(zs, y)
+		}
+	}
+	if len(zs) == 0 || (g.dummy >= 0 && x == g.dummy) {
+		return
+	}
+	g.emit(stmt{k: KAlias, x: x, ys: zs, pos: pos, why: why})
+}
+
+func typeOfSrc(v ssa.Value) types.Type {
+	if r, ok := v.(*ssa.Range); ok {
+		return r.X.Type()
+	}
+	return v.Type()
+}
+
+// flow: dst is derived from src (dst = src, &src.f, src[i:j], *src, ...).
+// dFromR: the direct referents of dst come from the contents of src (load, lookup).
+func (g *fn) flow(dst, src ssa.Value, dFromR bool, pos token.Pos, why string) {
+	if !carrier(dst.Type()) {
+		return
+	}
+	if c, ok := src.(*ssa.Const); ok && c != nil {
+		return
+	}
+	if !carrier(typeOfSrc(src)) {
+		return
+	}
+	from := g.D(src)
+	if dFromR {
+		from = g.R(src)
+	}
+	if !split(dst) {
+		if container(dst.Type()) {
+			// unsplit container (cannot happen for instructions, kept for safety)
+			g.alias(g.R(dst), []int{g.R(src)}, pos, why)
+			g.alias(g.R(src), []int{g.R(dst)}, pos, why+" (reverse)")
+			return
+		}
+		g.alias(g.R(dst), []int{from}, pos, why)
+		return
+	}
+	g.alias(g.D(dst), []int{from}, pos, why)
+	g.alias(g.R(dst), []int{g.R(src)}, pos, why)
+	if container(typeOfSrc(src)) {
+		g.alias(g.R(src), []int{g.R(dst)}, pos, why+" (reverse: shared mutable cells)")
+	}
+}
+
+// store: the value v is stored into an object referenced (directly) by target.
+func (g *fn) storeInto(target, v ssa.Value, pos token.Pos, why string) {
+	if _, ok := v.(*ssa.Const); ok {
+		return
+	}
+	if _, ok := v.(*ssa.Function); ok {
+		return
+	}
+	if !carrier(v.Type()) {
+		return
+	}
+	if gl, ok := target.(*ssa.Global); ok {
+		fatal("store of a reference-carrying value into global %s at %s is not supported", gl.String(), posStr(pos))
+	}
+	g.alias(g.R(target), []int{g.R(v)}, pos, why)
+	if container(v.Type()) {
+		g.alias(g.R(v), []int{g.R(target)}, pos, why+" (reverse: shared mutable cells)")
+	}
+}
+
+// ---------------------------------------------------------------------------
+// translation of one function
+
+func lastPos(in ssa.Instruction, prev token.Pos) token.Pos {
+	if in.Pos().IsValid() {
+		return in.Pos()
+	}
+	return prev
+}
+
+func translate(g *fn) {
+	f := g.f
+	cur := f.Pos()
+	for _, b := range f.Blocks {
+		for _, in := range b.Instrs {
+			cur = lastPos(in, cur)
+			pos := cur
+			switch x := in.(type) {
+			case *ssa.Alloc:
+				g.emit(stmt{k: KMake, x: g.D(x), pos: pos, why: "alloc " + x.Name() + " (" + x.Comment + ")"})
+			case *ssa.MakeSlice:
+				g.emit(stmt{k: KMake, x: g.D(x), pos: pos, why: "make slice " + x.Name()})
+			case *ssa.MakeMap:
+				g.emit(stmt{k: KMake, x: g.D(x), pos: pos, why: "make map " + x.Name()})
+			case *ssa.MakeChan:
+				g.emit(stmt{k: KMake, x: g.D(x), pos: pos, why: "make chan " + x.Name()})
+			case *ssa.FieldAddr:
+				g.flow(x, x.X, false, pos, fmt.Sprintf("%s = &%s.field#%d", x.Name(), x.X.Name(), x.Field))
+			case *ssa.Field:
+				g.flow(x, x.X, false, pos, fmt.Sprintf("%s = %s.field#%d", x.Name(), x.X.Name(), x.Field))
+			case *ssa.IndexAddr:
+				g.flow(x, x.X, false, pos, fmt.Sprintf("%s = &%s[...]", x.Name(), x.X.Name()))
+			case *ssa.Index:
+				g.flow(x, x.X, false, pos, fmt.Sprintf("%s = %s[...]", x.Name(), x.X.Name()))
+			case *ssa.Slice:
+				g.flow(x, x.X, false, pos, fmt.Sprintf("%s = %s[:]", x.Name(), x.X.Name()))
+			case *ssa.Phi:
+				for _, e := range x.Edges {
+					g.flow(x, e, false, pos, fmt.Sprintf("%s = phi(.. %s ..)", x.Name(), e.Name()))
+				}
+			case *ssa.ChangeType:
+				g.flow(x, x.X, false, pos, x.Name()+" = changetype "+x.X.Name())
+			case *ssa.ChangeInterface:
+				g.flow(x, x.X, false, pos, x.Name()+" = changeinterface "+x.X.Name())
+			case *ssa.SliceToArrayPointer:
+				g.flow(x, x.X, false, pos, x.Name()+" = slice-to-array-pointer "+x.X.Name())
+			case *ssa.MakeInterface:
+				g.flow(x, x.X, false, pos, x.Name()+" = make interface "+x.X.Name())
+			case *ssa.TypeAssert:
+				g.flow(x, x.X, false, pos, x.Name()+" = typeassert "+x.X.Name())
+			case *ssa.Convert:
+				if carrier(x.Type()) {
+					if _, isSl := x.Type().Underlying().(*types.Slice); isSl && !carrier(x.X.Type()) {
+						// string -> []byte / []rune allocates
+						g.emit(stmt{k: KMake, x: g.D(x), pos: pos, why: "convert to fresh slice " + x.Name()})
+					} else {
+						g.flow(x, x.X, false, pos, x.Name()+" = convert "+x.X.Name())
+					}
+				}
+			case *ssa.MultiConvert:
+				g.flow(x, x.X, false, pos, x.Name()+" = multiconvert "+x.X.Name())
+			case *ssa.Extract:
+				if c, ok := x.Tuple.(*ssa.Call); ok {
+					if carrier(x.Type()) {
+						cv := g.comp(c, x.Index)
+						if split(x) {
+							g.alias(g.D(x), []int{cv}, pos, fmt.Sprintf("%s = extract %s #%d", x.Name(), c.Name(), x.Index))
+							g.alias(g.R(x), []int{cv}, pos, fmt.Sprintf("%s = extract %s #%d", x.Name(), c.Name(), x.Index))
+							g.alias(cv, []int{g.R(x)}, pos, "extract (reverse: shared mutable cells)")
+						} else {
+							g.alias(g.R(x), []int{cv}, pos, fmt.Sprintf("%s = extract %s #%d", x.Name(), c.Name(), x.Index))
+						}
+					}
+				} else {
+					g.flow(x, x.Tuple, false, pos, fmt.Sprintf("%s = extract %s #%d", x.Name(), x.Tuple.Name(), x.Index))
+				}
+			case *ssa.MakeClosure:
+				g.emit(stmt{k: KMake, x: g.D(x), pos: pos, why: "make closure " + x.Name()})
+				for _, bnd := range x.Bindings {
+					g.storeInto(x, bnd, pos, "closure "+x.Name()+" binds "+bnd.Name())
+				}
+			case *ssa.UnOp:
+				switch x.Op {
+				case token.MUL:
+					g.flow(x, x.X, true, pos, x.Name()+" = *"+x.X.Name())
+				case token.ARROW:
+					fatal("channel receive is not supported (%s)", posStr(pos))
+				}
+			case *ssa.Lookup:
+				if _, isMap := x.X.Type().Underlying().(*types.Map); isMap {
+					g.flow(x, x.X, true, pos, x.Name()+" = "+x.X.Name()+"[key]")
+				}
+			case *ssa.Range:
+				// the iterator is identified with its operand
+			case *ssa.Next:
+				if !x.IsString {
+					g.flow(x, x.Iter, true, pos, x.Name()+" = next "+x.Iter.Name())
+				}
+			case *ssa.BinOp, *ssa.DebugRef, *ssa.Jump, *ssa.If, *ssa.RunDefers, *ssa.Panic:
+			case *ssa.Store:
+				g.emitWrite(x.Addr, pos, in, fmt.Sprintf("store *%s = %s", x.Addr.Name(), x.Val.Name()))
+				g.storeInto(x.Addr, x.Val, pos, fmt.Sprintf("store *%s = %s", x.Addr.Name(), x.Val.Name()))
+			case *ssa.MapUpdate:
+				g.emit(stmt{k: KWrite, x: g.D(x.Map), pos: pos, why: "map update " + x.Map.Name()})
+				g.storeInto(x.Map, x.Key, pos, "map update key "+x.Map.Name())
+				g.storeInto(x.Map, x.Value, pos, "map update value "+x.Map.Name())
+			case *ssa.Return:
+				var xs []int
+				for _, r := range x.Results {
+					if carrier(r.Type()) {
+						xs = append(xs, g.R(r))
+					} else {
+						xs = append(xs, g.shared())
+					}
+				}
+				for len(g.rets) < len(xs) {
+					g.rets = append(g.rets, 0)
+				}
+				g.emit(stmt{k: KRet, ys: xs, pos: pos, why: "return"})
+			case *ssa.Send, *ssa.Select:
+				fatal("channel operations are not supported (%s)", posStr(pos))
+			case ssa.CallInstruction:
+				translateCall(g, x, pos)
+			default:
+				if v, ok := in.(ssa.Value); ok && carrier(v.Type()) {
+					fatal("unsupported instruction %T producing a reference-carrying value at %s", in, posStr(pos))
+				}
+			}
+		}
+	}
+}
+
+// emitWrite: a store through pointer p modifies the objects p references directly.
+func (g *fn) emitWrite(p ssa.Value, pos token.Pos, in ssa.Instruction, why string) {
+	if g.name == exemptFunc && srcLine(in.Pos()) == exemptLine {
+		if _, ok := p.(*ssa.IndexAddr); ok {
+			g.emit(stmt{k: KExempt, x: g.D(p), tag: exemptTag, pos: pos, why: why})
+			return
+		}
+	}
+	g.emit(stmt{k: KWrite, x: g.D(p), pos: pos, why: why})
+}
+
+// ---------------------------------------------------------------------------
+// calls
+
+type extEffect struct {
+	writes   []int // argument indexes whose reachable objects are written
+	sorts    []int // same, emitted as SSort
+	retAlias []int // result may alias these arguments (plus fresh)
+	callback bool  // function-typed arguments are called with data from the other arguments
+	stringer bool  // may call String methods of the arguments (fmt)
+	sortIntf bool  // sort.Sort / sort.Stable: calls Len/Less/Swap of argument 0
+}
+
+var externs = map[string]extEffect{
+	"sort.Sort":        {sortIntf: true},
+	"sort.Stable":      {sortIntf: true},
+	"sort.Slice":       {sorts: []int{0}, callback: true},
+	"sort.SliceStable": {sorts: []int{0}, callback: true},
+	"sort.Search":      {callback: true},
+	"sort.Ints":        {sorts: []int{0}},
+
+	"slices.Sort":                 {sorts: []int{0}},
+	"slices.SortFunc":             {sorts: []int{0}, callback: true},
+	"slices.SortStableFunc":       {sorts: []int{0}, callback: true},
+	"slices.Delete":               {sorts: []int{0}, retAlias: []int{0}},
+	"slices.Insert":               {sorts: []int{0}, retAlias: []int{0, 2}},
+	"slices.Index":                {},
+	"slices.Contains":             {},
+	"slices.BinarySearch":         {},
+	"slices.BinarySearchFunc":     {callback: true},
+	"slices.Equal":                {},
+	"slices.Reverse":              {sorts: []int{0}},
+	"slices.Clone":                {},
+	"golang.org/x/exp/slices.Sort":             {sorts: []int{0}},
+	"golang.org/x/exp/slices.SortFunc":         {sorts: []int{0}, callback: true},
+	"golang.org/x/exp/slices.SortStableFunc":   {sorts: []int{0}, callback: true},
+	"golang.org/x/exp/slices.Delete":           {sorts: []int{0}, retAlias: []int{0}},
+	"golang.org/x/exp/slices.Insert":           {sorts: []int{0}, retAlias: []int{0, 2}},
+	"golang.org/x/exp/slices.Index":            {},
+	"golang.org/x/exp/slices.Contains":         {},
+	"golang.org/x/exp/slices.BinarySearch":     {},
+	"golang.org/x/exp/slices.BinarySearchFunc": {callback: true},
+	"golang.org/x/exp/slices.Equal":            {},
+	"golang.org/x/exp/slices.Clone":            {},
+
+	"(encoding/binary.littleEndian).PutUint64": {writes: []int{1}},
+	"(encoding/binary.littleEndian).PutUint32": {writes: []int{1}},
+	"(encoding/binary.littleEndian).PutUint16": {writes: []int{1}},
+	"(encoding/binary.littleEndian).Uint64":    {},
+	"(encoding/binary.littleEndian).Uint32":    {},
+	"(encoding/binary.littleEndian).Uint16":    {},
+	"(encoding/binary.bigEndian).PutUint64":    {writes: []int{1}},
+	"(encoding/binary.bigEndian).PutUint32":    {writes: []int{1}},
+	"(encoding/binary.bigEndian).Uint64":       {},
+	"(encoding/binary.bigEndian).Uint32":       {},
+
+	"io.ReadFull": {writes: []int{1}},
+
+	"(*strings.Builder).WriteString": {writes: []int{0}},
+	"(*strings.Builder).WriteByte":   {writes: []int{0}},
+	"(*strings.Builder).WriteRune":   {writes: []int{0}},
+	"(*strings.Builder).Write":       {writes: []int{0}},
+	"(*strings.Builder).String":      {},
+	"(*strings.Builder).Len":         {},
+
+	"(*sync.RWMutex).Lock":    {},
+	"(*sync.RWMutex).Unlock":  {},
+	"(*sync.RWMutex).RLock":   {},
+	"(*sync.RWMutex).RUnlock": {},
+	"(*sync.Mutex).Lock":      {},
+	"(*sync.Mutex).Unlock":    {},
+
+	"encoding/hex.EncodeToString": {},
+	"crypto/sha512.New512_256":    {},
+	"crypto/sha512.Sum512_256":    {},
+	"crypto/sha256.Sum256":        {},
+	"errors.New":                  {},
+}
+
+var purePrefixes = []string{"math/bits.", "math.", "strings.", "strconv.", "unicode/utf8."}
+var stringerPrefixes = []string{"fmt."}
+
+// effects of methods invoked through interfaces that are NOT package interfaces
+var extInvoke = map[string]extEffect{
+	"io.Writer.Write": {},                                   // reads p
+	"io.Reader.Read":  {writes: []int{1}},                   // writes p (args index 1: receiver is 0)
+	"hash.Hash.Write": {},                                   // reads p
+	"hash.Hash.Sum":   {writes: []int{1}, retAlias: []int{1}}, // appends to b
+	"hash.Hash.Reset": {},
+	"error.Error":     {},
+}
+
+func arity(sig *types.Signature) (int, int) { return sig.Params().Len(), sig.Results().Len() }
+
+// candidates for a call through a function value
+func funcCandidates(v ssa.Value) []*ssa.Function {
+	switch x := v.(type) {
+	case *ssa.MakeClosure:
+		return []*ssa.Function{x.Fn.(*ssa.Function)}
+	case *ssa.Function:
+		if fns[x] != nil {
+			return []*ssa.Function{x}
+		}
+		return nil
+	}
+	sig, ok := v.Type().Underlying().(*types.Signature)
+	if !ok {
+		return nil
+	}
+	np, nr := arity(sig)
+	var r []*ssa.Function
+	generic := mentionsTypeParam(sig)
+	for _, c := range addrTaken {
+		if fns[c] == nil {
+			continue
+		}
+		p2, r2 := arity(c.Signature)
+		if p2 != np || r2 != nr {
+			continue
+		}
+		// exact match when both signatures are monomorphic, arity match otherwise
+		if !generic && !mentionsTypeParam(c.Signature) && !sameSig(sig, c.Signature) {
+			continue
+		}
+		r = append(r, c)
+	}
+	return r
+}
+
+func sameSig(a, b *types.Signature) bool {
+	if a.Params().Len() != b.Params().Len() || a.Results().Len() != b.Results().Len() || a.Variadic() != b.Variadic() {
+		return false
+	}
+	for i := 0; i < a.Params().Len(); i++ {
+		if !types.Identical(a.Params().At(i).Type(), b.Params().At(i).Type()) {
+			return false
+		}
+	}
+	for i := 0; i < a.Results().Len(); i++ {
+		if !types.Identical(a.Results().At(i).Type(), b.Results().At(i).Type()) {
+			return false
+		}
+	}
+	return true
+}
+
+func mentionsTypeParam(t types.Type) bool {
+	seen := map[types.Type]bool{}
+	var rec func(t types.Type) bool
+	rec = func(t types.Type) bool {
+		if t == nil || seen[t] {
+			return false
+		}
+		seen[t] = true
+		switch u := t.(type) {
+		case *types.TypeParam:
+			return true
+		case *types.Named:
+			for i := 0; i < u.TypeArgs().Len(); i++ {
+				if rec(u.TypeArgs().At(i)) {
+					return true
+				}
+			}
+			return false
+		case *types.Pointer:
+			return rec(u.Elem())
+		case *types.Slice:
+			return rec(u.Elem())
+		case *types.Array:
+			return rec(u.Elem())
+		case *types.Map:
+			return rec(u.Key()) || rec(u.Elem())
+		case *types.Chan:
+			return rec(u.Elem())
+		case *types.Tuple:
+			for i := 0; i < u.Len(); i++ {
+				if rec(u.At(i).Type()) {
+					return true
+				}
+			}
+			return false
+		case *types.Signature:
+			return rec(u.Params()) || rec(u.Results())
+		case *types.Struct:
+			for i := 0; i < u.NumFields(); i++ {
+				if rec(u.Field(i).Type()) {
+					return true
+				}
+			}
+			return false
+		}
+		return false
+	}
+	return rec(t)
+}
+
+// methods of package types implementing the interface
+func implementers(it types.Type, method string) []*ssa.Function {
+	iface, ok := it.Underlying().(*types.Interface)
+	if !ok {
+		return nil
+	}
+	var r []*ssa.Function
+	seen := map[*ssa.Function]bool{}
+	for _, m := range pkg.Members {
+		t, ok := m.(*ssa.Type)
+		if !ok {
+			continue
+		}
+		if _, isIface := t.Type().Underlying().(*types.Interface); isIface {
+			continue
+		}
+		for _, recv := range []types.Type{t.Type(), types.NewPointer(t.Type())} {
+			if !types.Implements(recv, iface) {
+				continue
+			}
+			sel := prog.MethodSets.MethodSet(recv).Lookup(pkg.Pkg, method)
+			if sel == nil {
+				sel = prog.MethodSets.MethodSet(recv).Lookup(nil, method)
+			}
+			if sel == nil {
+				continue
+			}
+			mf := prog.MethodValue(sel)
+			if mf != nil && fns[mf] != nil && !seen[mf] {
+				seen[mf] = true
+				r = append(r, mf)
+			}
+		}
+	}
+	return r
+}
+
+// all String() string methods of package types (fmt may call them)
+func stringMethods() []*ssa.Function {
+	var r []*ssa.Function
+	for _, g := range fnList {
+		f := g.f
+		if f.Signature.Recv() != nil && f.Name() == "String" && f.Signature.Params().Len() == 0 && f.Signature.Results().Len() == 1 {
+			r = append(r, f)
+		}
+	}
+	return r
+}
+
+func (g *fn) argVar(a ssa.Value, paramT types.Type) int {
+	if _, ok := a.(*ssa.Const); ok {
+		if carrier(a.Type()) || (paramT != nil && carrier(paramT)) {
+			return g.newVar("const")
+		}
+		return g.shared()
+	}
+	if !carrier(a.Type()) {
+		if paramT != nil && carrier(paramT) {
+			return g.newVar("noncarrier-arg")
+		}
+		return g.shared()
+	}
+	return g.R(a)
+}
+
+func (g *fn) resultVars(ci ssa.CallInstruction) []int {
+	v, ok := ci.(*ssa.Call)
+	if !ok {
+		return nil
+	}
+	res := ci.Common().Signature().Results()
+	var r []int
+	for k := 0; k < res.Len(); k++ {
+		r = append(r, g.comp(v, k))
+	}
+	return r
+}
+
+// emit an IR call to a package function
+func (g *fn) emitCall(ci ssa.CallInstruction, callee *ssa.Function, pre []int, args []ssa.Value, rets []int, pos token.Pos, why string) {
+	cg := fns[callee]
+	if cg == nil {
+		fatal("callee %s has no IR", callee.String())
+	}
+	if len(pre)+len(args) != cg.nparams {
+		note("arity mismatch calling %s from %s (skipped candidate)", cg.name, g.name)
+		return
+	}
+	var as []int
+	as = append(as, pre...)
+	for i, a := range args {
+		var pt types.Type
+		idx := len(pre) + i - cg.nfree
+		if idx >= 0 && idx < len(callee.Params) {
+			pt = callee.Params[idx].Type()
+		}
+		as = append(as, g.argVar(a, pt))
+	}
+	nres := callee.Signature.Results().Len()
+	rs := rets
+	if len(rs) > nres {
+		rs = rs[:nres]
+	}
+	g.emit(stmt{k: KCall, rets: rs, callee: cg, ys: as, pos: pos, why: why})
+	// a reference-carrying result may share mutable cells with reference-carrying arguments
+	if ci != nil {
+		if v, ok := ci.(*ssa.Call); ok {
+			res := callee.Signature.Results()
+			for k := 0; k < res.Len() && k < len(rs); k++ {
+				if !container(res.At(k).Type()) {
+					continue
+				}
+				_ = v
+				for i, a := range args {
+					if _, isC := a.(*ssa.Const); isC {
+						continue
+					}
+					if container(a.Type()) {
+						g.alias(as[len(pre)+i], []int{rs[k]}, pos, why+" (result may share mutable cells with argument)")
+					}
+				}
+				for _, p := range pre {
+					g.alias(p, []int{rs[k]}, pos, why+" (result may share mutable cells with closure)")
+				}
+			}
+		}
+	}
+}
+
+func resolveStatic(callee *ssa.Function) *ssa.Function {
+	if fns[callee] != nil {
+		return callee
+	}
+	if o := callee.Origin(); o != nil && fns[o] != nil {
+		return o
+	}
+	return nil
+}
+
+func translateCall(g *fn, ci ssa.CallInstruction, pos token.Pos) {
+	c := ci.Common()
+	var res ssa.Value
+	if v, ok := ci.(*ssa.Call); ok {
+		res = v
+	}
+	rets := g.resultVars(ci)
+	args := c.Args
+
+	if b, ok := c.Value.(*ssa.Builtin); ok {
+		switch b.Name() {
+		case "append":
+			x := res
+			y := args[0]
+			z := args[1]
+			if x == nil {
+				return
+			}
+			xr := g.comp(x, 0)
+			if _, isC := y.(*ssa.Const); isC {
+				g.emit(stmt{k: KMake, x: xr, pos: pos, why: "append to nil"})
+			} else {
+				g.emit(stmt{k: KAppend, x: xr, y: g.D(y), pos: pos, why: fmt.Sprintf("%s = append(%s, ...)", x.Name(), y.Name())})
+				g.alias(xr, []int{g.R(y)}, pos, "append result reaches what the operand reaches")
+				if container(y.Type()) {
+					g.alias(g.R(y), []int{xr}, pos, "append (reverse: shared mutable cells)")
+				}
+			}
+			if _, isC := z.(*ssa.Const); !isC && carrier(z.Type()) {
+				if sl, ok := z.Type().Underlying().(*types.Slice); ok && carrier(sl.Elem()) {
+					g.alias(xr, []int{g.R(z)}, pos, "appended elements")
+					if container(sl.Elem()) {
+						g.alias(g.R(z), []int{xr}, pos, "appended elements (reverse: shared mutable cells)")
+					}
+				}
+			}
+		case "copy":
+			dst, src := args[0], args[1]
+			if _, isC := dst.(*ssa.Const); isC {
+				return
+			}
+			sv := g.shared()
+			if _, isC := src.(*ssa.Const); !isC && carrier(src.Type()) {
+				sv = g.R(src)
+			}
+			g.emit(stmt{k: KCopy, x: g.D(dst), y: sv, pos: pos, why: fmt.Sprintf("copy(%s, %s)", dst.Name(), src.Name())})
+			if sl, ok := dst.Type().Underlying().(*types.Slice); ok && carrier(sl.Elem()) && sv != g.shared() {
+				g.alias(g.R(dst), []int{sv}, pos, "copied elements")
+				if container(sl.Elem()) {
+					g.alias(sv, []int{g.R(dst)}, pos, "copied elements (reverse: shared mutable cells)")
+				}
+			}
+		case "delete", "clear":
+			if _, isC := args[0].(*ssa.Const); !isC {
+				g.emit(stmt{k: KWrite, x: g.D(args[0]), pos: pos, why: b.Name() + "(" + args[0].Name() + ")"})
+			}
+		case "len", "cap", "min", "max", "print", "println", "panic", "real", "imag", "complex":
+		case "ssa:wrapnilchk":
+			if res != nil {
+				g.flow0(res, args[0], pos, "wrapnilchk")
+			}
+		case "recover":
+			if res != nil {
+				g.emit(stmt{k: KMake, x: g.comp(res, 0), pos: pos, why: "recover()"})
+			}
+		default:
+			fatal("unsupported builtin %s at %s", b.Name(), posStr(pos))
+		}
+		return
+	}
+
+	if c.IsInvoke() {
+		recvT := c.Value.Type()
+		key := typeKey(recvT) + "." + c.Method.Name()
+		all := append([]ssa.Value{c.Value}, args...)
+		if eff, ok := extInvoke[key]; ok {
+			g.applyExt(eff, all, rets, res, pos, "invoke "+key)
+			return
+		}
+		cands := implementers(recvT, c.Method.Name())
+		if len(cands) == 0 {
+			note("UNKNOWN interface method %s in %s: conservative write of all arguments", key, g.name)
+			g.conservative(all, rets, pos, "unknown invoke "+key)
+			return
+		}
+		for _, m := range cands {
+			g.emitCall(ci, m, nil, all, rets, pos, "invoke "+key+" -> "+shortName(m))
+		}
+		return
+	}
+
+	if callee := c.StaticCallee(); callee != nil {
+		if tgt := resolveStatic(callee); tgt != nil {
+			var pre []int
+			if mc, ok := c.Value.(*ssa.MakeClosure); ok {
+				for range tgt.FreeVars {
+					pre = append(pre, g.R(mc))
+				}
+			}
+			g.emitCall(ci, tgt, pre, args, rets, pos, "call "+shortName(tgt))
+			return
+		}
+		name := extName(callee)
+		eff, ok := externs[name]
+		if !ok {
+			for _, p := range purePrefixes {
+				if strings.HasPrefix(name, p) {
+					ok = true
+				}
+			}
+			for _, p := range stringerPrefixes {
+				if strings.HasPrefix(name, p) {
+					ok = true
+					eff = extEffect{stringer: true}
+				}
+			}
+		}
+		if !ok {
+			anyCarrier := false
+			for _, a := range args {
+				if carrier(a.Type()) {
+					anyCarrier = true
+				}
+			}
+			if anyCarrier {
+				note("UNKNOWN external function %s in %s: conservative write of all arguments", name, g.name)
+				g.conservative(args, rets, pos, "unknown external "+name)
+			} else if len(rets) > 0 {
+				for _, r := range rets {
+					g.emit(stmt{k: KMake, x: r, pos: pos, why: "result of external " + name})
+				}
+			}
+			return
+		}
+		g.applyExt(eff, args, rets, res, pos, "external "+name)
+		return
+	}
+
+	// call through a function value
+	cands := funcCandidates(c.Value)
+	if len(cands) == 0 {
+		note("UNKNOWN dynamic call in %s at %s: conservative write of all arguments", g.name, posStr(pos))
+		g.conservative(append([]ssa.Value{c.Value}, args...), rets, pos, "unknown dynamic call")
+		return
+	}
+	for _, m := range cands {
+		var pre []int
+		for range m.FreeVars {
+			pre = append(pre, g.R(c.Value))
+		}
+		g.emitCall(ci, m, pre, args, rets, pos, "dynamic call -> "+shortName(m))
+	}
+}
+
+func typeKey(t types.Type) string {
+	s := t.String()
+	return s
+}
+
+func (g *fn) flow0(dst, src ssa.Value, pos token.Pos, why string) {
+	// result component of a call-like builtin derived from src
+	if !carrier(dst.Type()) {
+		return
+	}
+	if _, isC := src.(*ssa.Const); isC {
+		return
+	}
+	cv := g.comp(dst, 0)
+	g.alias(cv, []int{g.R(src)}, pos, why)
+	if container(src.Type()) {
+		g.alias(g.R(src), []int{cv}, pos, why+" (reverse)")
+	}
+}
+
+func (g *fn) conservative(args []ssa.Value, rets []int, pos token.Pos, why string) {
+	var as []int
+	for _, a := range args {
+		if _, isC := a.(*ssa.Const); isC || !carrier(a.Type()) {
+			continue
+		}
+		as = append(as, g.R(a))
+		g.emit(stmt{k: KWrite, x: g.R(a), pos: pos, why: why})
+	}
+	for _, r := range rets {
+		g.emit(stmt{k: KMake, x: r, pos: pos, why: why})
+		g.alias(r, as, pos, why)
+	}
+	// everything may be stored into everything
+	for _, a := range as {
+		g.alias(a, as, pos, why)
+		g.alias(a, rets, pos, why)
+	}
+}
+
+func (g *fn) applyExt(eff extEffect, args []ssa.Value, rets []int, res ssa.Value, pos token.Pos, why string) {
+	av := func(i int) (int, bool) {
+		if i >= len(args) {
+			return 0, false
+		}
+		if _, isC := args[i].(*ssa.Const); isC || !carrier(args[i].Type()) {
+			return 0, false
+		}
+		return g.R(args[i]), true
+	}
+	for _, i := range eff.writes {
+		if v, ok := av(i); ok {
+			g.emit(stmt{k: KWrite, x: v, pos: pos, why: why})
+		}
+	}
+	for _, i := range eff.sorts {
+		if v, ok := av(i); ok {
+			g.emit(stmt{k: KSort, x: v, pos: pos, why: why})
+		}
+	}
+	for _, r := range rets {
+		g.emit(stmt{k: KMake, x: r, pos: pos, why: "result of " + why})
+		for _, i := range eff.retAlias {
+			if v, ok := av(i); ok {
+				g.alias(r, []int{v}, pos, "result of "+why+" aliases argument")
+				if container(args[i].Type()) {
+					g.alias(v, []int{r}, pos, "result of "+why+" aliases argument (reverse)")
+				}
+			}
+		}
+	}
+	if eff.sortIntf {
+		if len(args) > 0 {
+			for _, mname := range []string{"Len", "Less", "Swap"} {
+				cands := implementers(args[0].Type(), mname)
+				if len(cands) == 0 {
+					note("UNKNOWN sort.Interface implementer in %s", g.name)
+					g.conservative(args, nil, pos, why)
+				}
+				for _, m := range cands {
+					margs := []ssa.Value{args[0]}
+					cg := fns[m]
+					pre := []int{}
+					as := []int{g.R(margs[0])}
+					for len(as) < cg.nparams {
+						as = append(as, g.shared())
+					}
+					_ = pre
+					g.emit(stmt{k: KCall, callee: cg, ys: as, pos: pos, why: why + " -> " + cg.name})
+				}
+			}
+		}
+	}
+	if eff.stringer {
+		var as []int
+		for i := range args {
+			if v, ok := av(i); ok {
+				as = append(as, v)
+			}
+		}
+		if len(as) > 0 {
+			for _, m := range stringMethods() {
+				cg := fns[m]
+				if cg.nparams != 1 {
+					continue
+				}
+				for _, a := range as {
+					g.emit(stmt{k: KCall, callee: cg, ys: []int{a}, pos: pos, why: why + " may call " + cg.name})
+				}
+			}
+		}
+	}
+	if eff.callback {
+		// function-typed arguments are called; their reference-carrying parameters
+		// receive data reachable from the other arguments
+		var others []int
+		for i, a := range args {
+			if _, isF := a.Type().Underlying().(*types.Signature); isF {
+				continue
+			}
+			if v, ok := av(i); ok {
+				others = append(others, v)
+			}
+		}
+		for _, a := range args {
+			sig, isF := a.Type().Underlying().(*types.Signature)
+			if !isF {
+				continue
+			}
+			cands := funcCandidates(a)
+			if len(cands) == 0 {
+				note("UNKNOWN callback in %s at %s", g.name, posStr(pos))
+				g.conservative(args, nil, pos, why)
+				continue
+			}
+			for _, m := range cands {
+				cg := fns[m]
+				var as []int
+				for range m.FreeVars {
+					as = append(as, g.R(a))
+				}
+				for i := 0; i < sig.Params().Len(); i++ {
+					if carrier(sig.Params().At(i).Type()) && len(others) > 0 {
+						u := g.newVar("cbarg")
+						g.alias(u, others, pos, "callback argument drawn from the other arguments")
+						for _, o := range others {
+							g.alias(o, []int{u}, pos, "callback argument (reverse)")
+						}
+						as = append(as, u)
+					} else {
+						as = append(as, g.shared())
+					}
+				}
+				if len(as) != cg.nparams {
+					continue
+				}
+				g.emit(stmt{k: KCall, callee: cg, ys: as, pos: pos, why: why + " calls back " + cg.name})
+			}
+		}
+	}
+}
+
+// ---------------------------------------------------------------------------
+// solver (least fixpoint of the checker's closure conditions)
+
+func bits(o oset) []int {
+	var r []int
+	for i := 0; i < 64; i++ {
+		if o&(oset(1)<<uint(i)) != 0 {
+			r = append(r, i)
+		}
+	}
+	return r
+}
+
+func (g *fn) addVal(x int, o oset, r reason) bool {
+	nw := o &^ g.val[x]
+	if nw == 0 {
+		return false
+	}
+	g.val[x] |= nw
+	for _, b := range bits(nw) {
+		if g.valWhy[x] == nil {
+			g.valWhy[x] = map[int]reason{}
+		}
+		g.valWhy[x][b] = r
+	}
+	return true
+}
+
+func (g *fn) addWrites(o oset, si int, x int) bool {
+	o = o.nonFresh()
+	nw := o &^ g.writes
+	if nw == 0 {
+		return false
+	}
+	g.writes |= nw
+	for _, b := range bits(nw) {
+		g.writeWhy[b] = reason{si: si, fromVar: x, fromBit: -1}
+	}
+	return true
+}
+
+// sigma: translate a callee owner set into the caller through the arguments.
+func (g *fn) sigma(o oset, args []int) oset {
+	r := o & (oFresh | oGlobal)
+	for j := range args {
+		if o&oParam(j) != 0 {
+			r |= g.val[args[j]]
+		}
+	}
+	return r
+}
+
+func (g *fn) addSigma(x int, o oset, args []int, si int) bool {
+	ch := false
+	if o&oFresh != 0 {
+		ch = g.addVal(x, oFresh, reason{si, -1, 0}) || ch
+	}
+	if o&oGlobal != 0 {
+		ch = g.addVal(x, oGlobal, reason{si, -1, 1}) || ch
+	}
+	for j := range args {
+		if o&oParam(j) != 0 {
+			ch = g.addVal(x, g.val[args[j]], reason{si, args[j], 2 + j}) || ch
+		}
+	}
+	return ch
+}
+
+func (g *fn) step() bool {
+	ch := false
+	for i := 0; i < g.nparams; i++ {
+		ch = g.addVal(i, oParam(i), reason{-1, -1, -1}) || ch
+	}
+	for si := range g.body {
+		s := &g.body[si]
+		switch s.k {
+		case KMake:
+			ch = g.addVal(s.x, oFresh, reason{si, -1, -1}) || ch
+		case KGlobal:
+			ch = g.addVal(s.x, oGlobal, reason{si, -1, -1}) || ch
+		case KAlias:
+			for _, y := range s.ys {
+				ch = g.addVal(s.x, g.val[y], reason{si, y, -1}) || ch
+			}
+		case KWrite, KSort, KCopy:
+			ch = g.addWrites(g.val[s.x], si, s.x) || ch
+		case KExempt:
+		case KAppend:
+			ch = g.addWrites(g.val[s.y], si, s.y) || ch
+			ch = g.addVal(s.x, g.val[s.y], reason{si, s.y, -1}) || ch
+			ch = g.addVal(s.x, oFresh, reason{si, -1, -1}) || ch
+		case KCall:
+			c := s.callee
+			for j, a := range s.ys {
+				if c.writes&oParam(j) != 0 {
+					nw := g.val[a].nonFresh() &^ g.writes
+					if nw != 0 {
+						g.writes |= nw
+						for _, b := range bits(nw) {
+							g.writeWhy[b] = reason{si: si, fromVar: a, fromBit: 2 + j}
+						}
+						ch = true
+					}
+				}
+			}
+			if c.writes&oGlobal != 0 && g.writes&oGlobal == 0 {
+				g.writes |= oGlobal
+				g.writeWhy[1] = reason{si: si, fromVar: -1, fromBit: 1}
+				ch = true
+			}
+			for k, r := range s.rets {
+				if k < len(c.rets) {
+					ch = g.addSigma(r, c.rets[k], s.ys, si) || ch
+				}
+			}
+			for j, a := range s.ys {
+				if j < c.nparams {
+					ch = g.addSigma(a, c.val[j], s.ys, si) || ch
+				}
+			}
+		case KRet:
+			for k, x := range s.ys {
+				nw := g.val[x] &^ g.rets[k]
+				if nw != 0 {
+					g.rets[k] |= nw
+					ch = true
+				}
+			}
+		}
+	}
+	return ch
+}
+
+// selfCheck mirrors the Coq checker (sanity only; Coq is the authority).
+func (g *fn) selfCheck() error {
+	sub := func(a, b oset) bool { return a&^b == 0 }
+	writable := func(o oset) bool { return sub(o.nonFresh(), g.writes) }
+	for i := 0; i < g.nparams; i++ {
+		if g.val[i]&oParam(i) == 0 {
+			return fmt.Errorf("param %d", i)
+		}
+	}
+	for si, s := range g.body {
+		ok := true
+		switch s.k {
+		case KMake:
+			ok = g.val[s.x]&oFresh != 0
+		case KGlobal:
+			ok = g.val[s.x]&oGlobal != 0
+		case KAlias:
+			for _, y := range s.ys {
+				ok = ok && sub(g.val[y], g.val[s.x])
+			}
+		case KWrite, KSort, KCopy:
+			ok = writable(g.val[s.x])
+		case KAppend:
+			ok = writable(g.val[s.y]) && sub(g.val[s.y]|oFresh, g.val[s.x])
+		case KCall:
+			c := s.callee
+			ok = len(s.ys) == c.nparams
+			for j, a := range s.ys {
+				if c.writes&oParam(j) != 0 {
+					ok = ok && writable(g.val[a])
+				}
+				ok = ok && sub(g.sigma(c.val[j], s.ys), g.val[a])
+			}
+			if c.writes&oGlobal != 0 {
+				ok = ok && g.writes&oGlobal != 0
+			}
+			for k, r := range s.rets {
+				if k < len(c.rets) {
+					ok = ok && sub(g.sigma(c.rets[k], s.ys), g.val[r])
+				}
+			}
+		case KRet:
+			for k, x := range s.ys {
+				ok = ok && sub(g.val[x], g.rets[k])
+			}
+		}
+		if !ok {
+			return fmt.Errorf("statement %d (%s)", si, s.why)
+		}
+	}
+	return nil
+}
+
+// ---------------------------------------------------------------------------
+// explanation chains
+
+func ownerName(b int) string {
+	switch b {
+	case 0:
+		return "Fresh"
+	case 1:
+		return "Global"
+	}
+	return fmt.Sprintf("Param %d", b-2)
+}
+
+func (g *fn) paramName(i int) string {
+	if i < g.nfree {
+		return "freevar " + g.f.FreeVars[i].Name()
+	}
+	if i-g.nfree < len(g.f.Params) {
+		return g.f.Params[i-g.nfree].Name()
+	}
+	return "?"
+}
+
+func (g *fn) stmtStr(si int) string {
+	s := g.body[si]
+	return fmt.Sprintf("[%s] %s   // %s", posStr(s.pos), g.coqStmt(s, true), s.why)
+}
+
+func (g *fn) explainVal(x int, b int, ind string, depth int, seen map[[2]int]bool) {
+	if depth > 40 || seen[[2]int{x, b}] {
+		return
+	}
+	seen[[2]int{x, b}] = true
+	r, ok := g.valWhy[x][b]
+	if !ok {
+		return
+	}
+	if r.si < 0 {
+		fmt.Printf("%s%s is parameter %d (%s) of %s\n", ind, g.vnames[x], x, g.paramName(x), g.name)
+		return
+	}
+	fmt.Printf("%s%s may reference %s because %s\n", ind, g.vnames[x], ownerName(b), g.stmtStr(r.si))
+	if r.fromVar >= 0 {
+		g.explainVal(r.fromVar, b, ind, depth+1, seen)
+	}
+}
+
+func (g *fn) explainWrite(b int, ind string, depth int, seenF map[string]bool) {
+	key := fmt.Sprintf("%d/%d", g.id, b)
+	if depth > 25 || seenF[key] {
+		fmt.Printf("%s(see above: %s writes %s)\n", ind, g.name, ownerName(b))
+		return
+	}
+	seenF[key] = true
+	r, ok := g.writeWhy[b]
+	if !ok {
+		return
+	}
+	s := g.body[r.si]
+	fmt.Printf("%s%s writes %s", ind, g.name, ownerName(b))
+	if b >= 2 {
+		fmt.Printf(" (%s)", g.paramName(b-2))
+	}
+	fmt.Printf(": %s\n", g.stmtStr(r.si))
+	if r.fromVar >= 0 {
+		g.explainVal(r.fromVar, b, ind+"    . ", 0, map[[2]int]bool{})
+	}
+	if s.k == KCall && r.fromBit >= 0 {
+		s.callee.explainWrite(r.fromBit, ind+"  ", depth+1, seenF)
+	}
+}
+
+// ---------------------------------------------------------------------------
+// Coq output
+
+func (g *fn) vn(x int, names bool) string {
+	if names {
+		return g.vnames[x]
+	}
+	return fmt.Sprint(x)
+}
+
+func (g *fn) vlist(xs []int, names bool) string {
+	var p []string
+	for _, x := range xs {
+		p = append(p, g.vn(x, names))
+	}
+	return "[" + strings.Join(p, "; ") + "]"
+}
+
+func (g *fn) coqStmt(s stmt, names bool) string {
+	switch s.k {
+	case KMake:
+		return "SMake " + g.vn(s.x, names)
+	case KGlobal:
+		return "SGlobal " + g.vn(s.x, names)
+	case KAlias:
+		return "SAlias " + g.vn(s.x, names) + " " + g.vlist(s.ys, names)
+	case KWrite:
+		return "SWrite " + g.vn(s.x, names)
+	case KSort:
+		return "SSort " + g.vn(s.x, names)
+	case KCopy:
+		return "SCopy " + g.vn(s.x, names) + " " + g.vn(s.y, names)
+	case KAppend:
+		return "SAppend " + g.vn(s.x, names) + " " + g.vn(s.y, names)
+	case KCall:
+		c := fmt.Sprint(s.callee.id)
+		if names {
+			c = "<" + s.callee.name + ">"
+		}
+		return "SCall " + g.vlist(s.rets, names) + " " + c + " " + g.vlist(s.ys, names)
+	case KRet:
+		return "SRet " + g.vlist(s.ys, names)
+	case KExempt:
+		if names {
+			return "SWriteExempt " + g.vn(s.x, names) + " <tag>"
+		}
+		return "SWriteExempt " + g.vn(s.x, names) + " exempt_tag_0"
+	}
+	return "?"
+}
+
+func coqString(s string) string { return "\"" + strings.ReplaceAll(s, "\"", "\"\"") + "\"" }
+
+func coqComment(s string) string {
+	s = strings.ReplaceAll(s, "(*", "( *")
+	s = strings.ReplaceAll(s, "*)", "* )")
+	s = strings.ReplaceAll(s, "\"", "'")
+	return s
+}
+
+func stmtKey(g *fn, s stmt) string { return g.coqStmt(s, false) }
+
+func writeCoq(path string, repo string) {
+	var sb strings.Builder
+	w := func(f string, a ...interface{}) { fmt.Fprintf(&sb, f, a...) }
+	w("(* GENERATED by /verif/tools/effscan from the SSA of package %s.  DO NOT EDIT.\n", pkgPath)
+	w("   Regenerate: effscan -repo <dir> -out <this file>.\n")
+	w("   %d functions. Owner sets and summaries are CLAIMS of the analyser; they are\n", len(fnList))
+	w("   re-validated by SliceHeap.check_program (see Gen/EffIROk.v). *)\n")
+	w("From Coq Require Import List String.\nFrom Utreexo Require Import Spec.SliceHeap.\nImport ListNotations.\nLocal Open Scope string_scope.\n\n")
+	w("Definition exempt_tag_0 : string :=\n  %s.\n\n", coqString(exemptTag))
+	// interned owner sets
+	osetName := map[oset]string{}
+	var osets []oset
+	intern := func(o oset) string {
+		if n, ok := osetName[o]; ok {
+			return n
+		}
+		n := fmt.Sprintf("os%d", len(osets))
+		osetName[o] = n
+		osets = append(osets, o)
+		return n
+	}
+	var body strings.Builder
+	bw := func(f string, a ...interface{}) { fmt.Fprintf(&body, f, a...) }
+	for _, g := range fnList {
+		cm := g.name
+		for i := 0; i < g.nparams; i++ {
+			cm += fmt.Sprintf("  P%d=%s", i, g.paramName(i))
+		}
+		bw("(* %s *)\n", coqComment(cm))
+		bw("Definition fn_%d : fn := {|\n  fname := %s;\n  nparams := %d;\n  body := [\n", g.id, coqString(g.name), g.nparams)
+		seen := map[string]bool{}
+		first := true
+		for _, s := range g.body {
+			k := stmtKey(g, s)
+			if seen[k] {
+				continue
+			}
+			seen[k] = true
+			if !first {
+				bw(";\n")
+			}
+			first = false
+			bw("    %s", k)
+		}
+		bw("\n  ];\n  vals := [")
+		for x := range g.val {
+			if x > 0 {
+				bw("; ")
+			}
+			bw("%s", intern(g.val[x]))
+		}
+		bw("];\n  writes := %s;\n  rets := [", intern(g.writes))
+		for k, r := range g.rets {
+			if k > 0 {
+				bw("; ")
+			}
+			bw("%s", intern(r))
+		}
+		bw("]\n|}.\n\n")
+	}
+	for i, o := range osets {
+		w("Definition os%d : list owner := %s.\n", i, o.coq())
+	}
+	w("\n")
+	sb.WriteString(body.String())
+	w("Definition eff_ir : program := [\n")
+	for i, g := range fnList {
+		if i > 0 {
+			w(";\n")
+		}
+		w("  fn_%d", g.id)
+	}
+	w("\n].\n\n")
+	w("(* Variable name tables (reports only; not used by the checker). *)\nDefinition eff_var_names : list (string * list string) := [\n")
+	for i, g := range fnList {
+		if i > 0 {
+			w(";\n")
+		}
+		var ns []string
+		for _, n := range g.vnames {
+			ns = append(ns, coqString(n))
+		}
+		w("  (%s, [%s])", coqString(g.name), strings.Join(ns, "; "))
+	}
+	w("\n].\n\n")
+	w("(* Entry points of property C17 with the indexes of their caller-owned\n   (non-receiver, reference-carrying) parameters. *)\nDefinition entry_points : list (string * list nat) := [\n")
+	for i, e := range entryInfo() {
+		if i > 0 {
+			w(";\n")
+		}
+		var ix []string
+		for _, j := range e.idx {
+			ix = append(ix, fmt.Sprint(j))
+		}
+		w("  (%s, [%s]) (* %s *)", coqString(e.g.name), strings.Join(ix, "; "), coqComment(strings.Join(e.names, ", ")))
+	}
+	w("\n].\n\n")
+	w("(* Receivers of the entry points that are methods (parameter 0). *)\nDefinition entry_receivers : list string := [\n")
+	firstR := true
+	for _, e := range entryInfo() {
+		if e.g.f.Signature.Recv() != nil {
+			if !firstR {
+				w(";\n")
+			}
+			firstR = false
+			w("  %s", coqString(e.g.name))
+		}
+	}
+	w("\n].\n")
+	if err := os.WriteFile(path, []byte(sb.String()), 0o644); err != nil {
+		fatal("%v", err)
+	}
+}
+
+type entry struct {
+	g     *fn
+	idx   []int
+	names []string
+}
+
+func entryInfo() []entry {
+	var r []entry
+	for _, n := range entryNames {
+		var g *fn
+		for _, c := range fnList {
+			if c.name == n {
+				g = c
+			}
+		}
+		if g == nil {
+			fatal("entry point %s not found in the package", n)
+		}
+		e := entry{g: g}
+		for i, p := range g.f.Params {
+			if i == 0 && g.f.Signature.Recv() != nil {
+				continue
+			}
+			if carrier(p.Type()) {
+				e.idx = append(e.idx, g.nfree+i)
+				e.names = append(e.names, fmt.Sprintf("%d=%s %s", g.nfree+i, p.Name(), types.TypeString(p.Type(), func(*types.Package) string { return "" })))
+			}
+		}
+		r = append(r, e)
+	}
+	return r
+}
+
+// ---------------------------------------------------------------------------
+
 func main() {
-	cfg := &packages.Config{Mode: packages.LoadAllSyntax, Dir: "/repo"}
+	repo := flag.String("repo", "/repo", "directory of the package to analyse")
+	out := flag.String("out", "", "Coq file to write (Gen/EffIR.v)")
+	explain := flag.Bool("explain", false, "print a witness chain for every dirty entry-point parameter")
+	report := flag.Bool("report", false, "print all summaries")
+	dump := flag.String("dump", "", "print the IR of the functions whose name contains this string")
+	flag.Parse()
+
+	cfg := &packages.Config{Mode: packages.LoadAllSyntax, Dir: *repo}
 	pkgs, err := packages.Load(cfg, ".")
 	if err != nil {
-		panic(err)
+		fatal("%v", err)
 	}
-	prog, _ := ssautil.AllPackages(pkgs, ssa.InstantiateGenerics)
+	if len(pkgs) != 1 || len(pkgs[0].Errors) > 0 {
+		fatal("package load errors: %v", pkgs[0].Errors)
+	}
+	pkgPath = pkgs[0].PkgPath
+	var spkgs []*ssa.Package
+	prog, spkgs = ssautil.AllPackages(pkgs, ssa.InstantiateGenerics)
 	prog.Build()
-	fmt.Println(len(pkgs))
+	for _, p := range spkgs {
+		if p != nil && p.Pkg.Path() == pkgPath {
+			pkg = p
+		}
+	}
+	if pkg == nil {
+		fatal("package not found")
+	}
+
+	// collect functions: members, methods (incl. wrappers), anonymous functions, instances
+	all := map[*ssa.Function]bool{}
+	var order []*ssa.Function
+	var addFn func(f *ssa.Function)
+	addFn = func(f *ssa.Function) {
+		if f == nil || all[f] || f.Blocks == nil {
+			return
+		}
+		if f.Synthetic == "package initializer" {
+			return
+		}
+		all[f] = true
+		order = append(order, f)
+		for _, a := range f.AnonFuncs {
+			addFn(a)
+		}
+	}
+	var mnames []string
+	for n := range pkg.Members {
+		mnames = append(mnames, n)
+	}
+	sort.Strings(mnames)
+	for _, n := range mnames {
+		switch x := pkg.Members[n].(type) {
+		case *ssa.Function:
+			addFn(x)
+		case *ssa.Type:
+			for _, t := range []types.Type{x.Type(), types.NewPointer(x.Type())} {
+				ms := prog.MethodSets.MethodSet(t)
+				for i := 0; i < ms.Len(); i++ {
+					addFn(prog.MethodValue(ms.At(i)))
+				}
+			}
+		}
+	}
+	for ch := true; ch; {
+		ch = false
+		for _, f := range append([]*ssa.Function{}, order...) {
+			for _, b := range f.Blocks {
+				for _, in := range b.Instrs {
+					for _, op := range in.Operands(nil) {
+						if *op == nil {
+							continue
+						}
+						if cal, ok := (*op).(*ssa.Function); ok && !all[cal] && cal.Blocks != nil {
+							if cal.Pkg == pkg || (cal.Origin() != nil && cal.Origin().Pkg == pkg) {
+								addFn(cal)
+								ch = true
+							}
+						}
+					}
+				}
+			}
+		}
+	}
+	sort.SliceStable(order, func(i, j int) bool { return shortName(order[i]) < shortName(order[j]) })
+	names := map[string]bool{}
+	for i, f := range order {
+		g := &fn{id: i, f: f, name: shortName(f), nfree: len(f.FreeVars), vars: map[vkey]int{}, dummy: -1, writeWhy: map[int]reason{}}
+		if names[g.name] {
+			fatal("duplicate function name %s", g.name)
+		}
+		names[g.name] = true
+		g.nparams = g.nfree + len(f.Params)
+		if g.nparams > 58 {
+			fatal("too many parameters in %s", g.name)
+		}
+		for _, fv := range f.FreeVars {
+			g.newVar("free:" + fv.Name())
+		}
+		for _, p := range f.Params {
+			g.newVar(p.Name())
+		}
+		g.rets = make([]oset, f.Signature.Results().Len())
+		fns[f] = g
+		fnList = append(fnList, g)
+	}
+	// address-taken functions
+	at := map[*ssa.Function]bool{}
+	for _, g := range fnList {
+		for _, b := range g.f.Blocks {
+			for _, in := range b.Instrs {
+				for _, op := range in.Operands(nil) {
+					if *op == nil {
+						continue
+					}
+					fv, ok := (*op).(*ssa.Function)
+					if !ok {
+						continue
+					}
+					if ci, ok := in.(ssa.CallInstruction); ok && ci.Common().Value == fv {
+						continue
+					}
+					if !at[fv] && fns[fv] != nil {
+						at[fv] = true
+						addrTaken = append(addrTaken, fv)
+					}
+				}
+			}
+		}
+	}
+	sort.Slice(addrTaken, func(i, j int) bool { return shortName(addrTaken[i]) < shortName(addrTaken[j]) })
+
+	// fmt may call these methods on its operands; the model only joins String()
+	for _, g := range fnList {
+		if g.f.Signature.Recv() != nil {
+			switch g.f.Name() {
+			case "Error", "Format", "GoString":
+				fatal("package method %s: fmt would call it, which the primitive table does not model", g.name)
+			}
+		}
+	}
+	for _, g := range fnList {
+		translate(g)
+	}
+	nst := 0
+	for _, g := range fnList {
+		g.val = make([]oset, len(g.vnames))
+		g.valWhy = make([]map[int]reason, len(g.vnames))
+		nst += len(g.body)
+	}
+	iters := 0
+	for {
+		iters++
+		ch := false
+		for _, g := range fnList {
+			for g.step() {
+				ch = true
+			}
+		}
+		if !ch {
+			break
+		}
+		if iters > 1000 {
+			fatal("no fixpoint")
+		}
+	}
+	for _, g := range fnList {
+		if err := g.selfCheck(); err != nil {
+			fatal("self-check failed in %s: %v", g.name, err)
+		}
+	}
+	fmt.Printf("effscan: %d functions, %d IR statements, fixpoint after %d rounds\n", len(fnList), nst, iters)
+
+	var ns []string
+	for n := range notes {
+		ns = append(ns, n)
+	}
+	sort.Strings(ns)
+	for _, n := range ns {
+		fmt.Println("note:", n)
+	}
+
+	// exemptions
+	nex := 0
+	for _, g := range fnList {
+		for _, s := range g.body {
+			if s.k == KExempt {
+				nex++
+				fmt.Printf("exemption: %s at %s: %s\n", g.name, posStr(s.pos), s.tag)
+			}
+		}
+	}
+	if nex != 1 {
+		fmt.Printf("WARNING: expected exactly one exempt write, found %d\n", nex)
+	}
+
+	if *dump != "" {
+		for _, g := range fnList {
+			if strings.Contains(g.name, *dump) {
+				fmt.Printf("== %s  writes=%s rets=%v\n", g.name, g.writes.short(), retsShort(g))
+				for si := range g.body {
+					fmt.Println("   ", g.stmtStr(si))
+				}
+				for x, n := range g.vnames {
+					fmt.Printf("    var %d %s = %s\n", x, n, g.val[x].short())
+				}
+			}
+		}
+	}
+	if *report {
+		for _, g := range fnList {
+			var ps []string
+			for i := 0; i < g.nparams; i++ {
+				ps = append(ps, fmt.Sprintf("P%d=%s%s", i, g.paramName(i), g.val[i].short()))
+			}
+			fmt.Printf("%-50s writes=%-14s rets=%v  params: %s\n", g.name, g.writes.short(), retsShort(g), strings.Join(ps, " "))
+		}
+	}
+
+	// entry points
+	dirty := 0
+	for _, e := range entryInfo() {
+		var bad []int
+		for _, i := range e.idx {
+			if e.g.writes&oParam(i) != 0 {
+				bad = append(bad, i)
+			}
+		}
+		status := "clean"
+		if len(bad) > 0 {
+			status = fmt.Sprintf("DIRTY %v", bad)
+			dirty++
+		}
+		retain := ""
+		if e.g.f.Signature.Recv() != nil {
+			for _, i := range e.idx {
+				if e.g.val[0]&oParam(i) != 0 {
+					retain += fmt.Sprintf(" receiver-may-retain-P%d", i)
+				}
+			}
+		}
+		if !resultsDetached(e) {
+			retain += " results-not-provably-detached"
+		}
+		fmt.Printf("entry %-40s %-12s writes=%s rets=%v%s\n", e.g.name, status, e.g.writes.short(), retsShort(e.g), retain)
+		if *explain {
+			for _, i := range bad {
+				fmt.Printf("  witness for parameter %d (%s):\n", i, e.g.paramName(i))
+				e.g.explainWrite(2+i, "    ", 0, map[string]bool{})
+			}
+		}
+	}
+	for _, g := range fnList {
+		if g.name == "GetMissingPositions" {
+			fmt.Printf("stand-alone GetMissingPositions writes=%s (parameter 2 = desiredTargets written: %v)\n", g.writes.short(), g.writes&oParam(2) != 0)
+			if *explain {
+				g.explainWrite(2+2, "    ", 0, map[string]bool{})
+			}
+		}
+	}
+	if *out != "" {
+		writeCoq(*out, *repo)
+		fmt.Println("wrote", *out)
+	}
+	if dirty > 0 {
+		fmt.Printf("effscan: %d entry point(s) DIRTY\n", dirty)
+		os.Exit(1)
+	}
+}
+
+// resultsDetached mirrors SliceHeap.fn_results_detached_b.
+func resultsDetached(e entry) bool {
+	hasRecv := e.g.f.Signature.Recv() != nil
+	var allowed oset = oFresh
+	for _, i := range e.idx {
+		allowed |= oParam(i)
+	}
+	for _, r := range e.g.rets {
+		if r&^allowed != 0 {
+			return false
+		}
+		if r&oFresh != 0 && hasRecv && e.g.val[0]&oFresh != 0 {
+			return false
+		}
+	}
+	return true
+}
+
+func retsShort(g *fn) []string {
+	var r []string
+	for _, o := range g.rets {
+		r = append(r, o.short())
+	}
+	return r
 }
